@@ -765,6 +765,13 @@ Qed.
 (* ---- what each walker function establishes ---- *)
 Definition is_nil {A} (l : list A) : bool := match l with [] => true | _ => false end.
 
+(* the first declaration the walker records starts at the first non-skippable token *)
+Definition head_start (rest : list tok) (STn : list N) : Prop :=
+  match snd (gather rest) with
+  | [] => STn = []
+  | t :: _ => exists STn', STn = open_id t :: STn'
+  end.
+
 Definition S_scope (f : nat) : Prop :=
   forall cf scope mode Pd rest cv slots bbs starts hb ix ix' l0,
   walk_scope f cf scope mode Pd rest cv slots bbs starts hb ix = Some ix' ->
@@ -775,6 +782,7 @@ Definition S_scope (f : nat) : Prop :=
   exists SLn STn,
     d_slots (get_det scope ix') = slots ++ SLn /\ d_starts (get_det scope ix') = starts ++ STn
     /\ length SLn = S (length STn)
+    /\ head_start rest STn
     /\ (forall s, In s STn -> In s (all_ids rest))
     /\ (forall k, ~ In k (all_ids rest) -> k <> scope -> same_at ix ix' k)
     /\ (slots <> [] -> alookup scope (i_att ix') = alookup scope (i_att ix))
@@ -852,7 +860,7 @@ Proof.
   assert (H0ch : ~ In 0 (all_ids ch)) by (intros Hin; apply H0; right; apply in_or_app; now left).
   destruct (IHs cf io (child_mode b sa) [] ch false [] [] [] false ix ix1 l0 Hws Hndch H0ch Hio_ch
                 ltac:(discriminate) Hg ltac:(intros; exact Hatt))
-    as [SLn [STn [Hsl [Hst [Hlen [Hin [Hfr [_ [Hopen Heq]]]]]]]]].
+    as [SLn [STn [Hsl [Hst [Hlen [_ [Hin [Hfr [_ [Hopen Heq]]]]]]]]]].
   cbn [app] in Hsl, Hst.
   destruct (Hopen eq_refl Hio0) as [X HX].
   destruct (last_split_list SLn _ Hlen) as [S1 [lst [HS1 HS1len]]].
@@ -934,7 +942,8 @@ Proof.
     match type of Hw with Some (set_det scope ?D ix) = _ => set (D0 := D) in Hw end.
     inversion Hw; subst ix'; clear Hw.
     rewrite get_det_set_det. cbn [d_slots d_starts D0]. rewrite app_nil_r.
-    split; [reflexivity|]. split; [reflexivity|]. split; [reflexivity|]. split; [intros s []|].
+    split; [reflexivity|]. split; [reflexivity|]. split; [reflexivity|].
+    split; [unfold head_start; now rewrite Hga|]. split; [intros s []|].
     split; [intros k _ Hk; now apply set_det_other|].
     split; [reflexivity|].
     split; [intros Hs Hz; exists []; now apply Hopen|].
@@ -992,10 +1001,11 @@ Proof.
                   ltac:(intros Hi; apply Hsc_tr; now apply Hsub_R)
                   Hcvres ltac:(rewrite Hr in Hgr; now apply guard_suffix in Hgr)
                   ltac:(intros He; destruct slots; discriminate He))
-      as [SLn' [STn' [Hsl [Hst [Hlen [Hin [Hfr_s [Hsc_s [_ Heq_s]]]]]]]]].
+      as [SLn' [STn' [Hsl [Hst [Hlen [_ [Hin [Hfr_s [Hsc_s [_ Heq_s]]]]]]]]]].
     exists (d :: SLn'), (open_id t :: STn').
     rewrite <- app_assoc in Hsl, Hst. cbn [app] in Hsl, Hst.
     split; [exact Hsl|]. split; [exact Hst|]. split; [cbn [length]; now rewrite Hlen|].
+    split; [unfold head_start; rewrite Hga; cbn [snd]; now exists STn'|].
     assert (Hopen_in : In (open_id t) (all_ids sk ++ all_ids_tok t ++ all_ids r)).
     { apply in_or_app. right. apply in_or_app. left. apply open_id_in. }
     split.
@@ -1395,7 +1405,7 @@ Proof.
   intros [Hnd H0] Hg Hb. unfold build in Hb.
   destruct (proj1 (spec_mutual (S (toks_size toks))) cf 0 false [] toks false [] [] [] false empty_index ix []
                   Hb Hnd H0 H0 ltac:(discriminate) Hg ltac:(intros _ Hz; now contradiction Hz))
-    as [SLn [STn [Hsl [Hst [_ [_ [_ [_ [_ Heq]]]]]]]]].
+    as [SLn [STn [Hsl [Hst [_ [_ [_ [_ [_ [_ Heq]]]]]]]]]].
   destruct (Heq ix (agree_refl _ _) ltac:(intros; reflexivity)) as [Hcov Heqn].
   split; [exact Hcov|]. rewrite (emit_roundtrip_E _ _ Hcov). rewrite Hsl, Hst. exact Heqn.
 Qed.
@@ -1644,6 +1654,154 @@ Proof.
   - vm_compute. reflexivity.
   - vm_compute. discriminate.
 Qed.
+
+(* ---- Print on each top-level declaration ---- *)
+Lemma cut_decls_acc l : forall starts cur acc,
+  cut_decls l starts cur acc = acc ++ cut_decls l starts cur [].
+Proof.
+  induction l as [|t r IH]; intros starts cur acc; cbn [cut_decls]; [reflexivity|].
+  destruct starts as [|s st]; [apply IH|].
+  destruct (negb (skippable t) && ((s =? open_id t) || (s =? close_id t))).
+  - rewrite (IH st [t] (acc ++ [cur])). rewrite (IH st [t] ([] ++ [cur])). cbn [app]. now rewrite <- app_assoc.
+  - apply IH.
+Qed.
+
+Definition grp (ix : index) (p : list tok * list tok) : list (N * list N) :=
+  pieces (fst p) ++ EP ix (snd p).
+
+Lemma cut_E ix l : forall slots starts cur,
+  (length starts < length slots)%nat ->
+  exists g0 gs,
+    cut_decls l starts cur [] = (cur ++ g0) :: gs
+    /\ (length gs <= length starts)%nat
+    /\ E_seq (E_tok ix) l slots starts
+       = EP ix g0 ++ concat (map (grp ix) (combine (firstn (length gs) slots) gs))
+         ++ pieces (concat (skipn (length gs) slots)).
+Proof.
+  induction l as [|t r IH]; intros slots starts cur Hlen.
+  - exists [], []. cbn [cut_decls app]. rewrite app_nil_r. split; [reflexivity|]. split; [cbn; lia|]. reflexivity.
+  - cbn [cut_decls].
+    assert (Hnomatch : forall slots starts, (length starts < length slots)%nat ->
+               (match starts with
+                | s :: _ => negb (skippable t) && ((s =? open_id t) || (s =? close_id t))
+                | [] => false end) = false ->
+               exists g0 gs,
+                 cut_decls r starts (cur ++ [t]) [] = (cur ++ g0) :: gs
+                 /\ (length gs <= length starts)%nat
+                 /\ E_seq (E_tok ix) (t :: r) slots starts
+                    = EP ix g0 ++ concat (map (grp ix) (combine (firstn (length gs) slots) gs))
+                      ++ pieces (concat (skipn (length gs) slots))).
+    { intros sl st Hl Hnm. destruct (IH sl st (cur ++ [t]) Hl) as [g0 [gs [H1 [H2 H3]]]].
+      exists (t :: g0), gs. split; [rewrite H1; now rewrite <- app_assoc|]. split; [exact H2|].
+      destruct (skippable t) eqn:Hs.
+      - rewrite E_seq_skip by exact Hs. unfold EP. rewrite E_seq_skip by exact Hs. exact H3.
+      - rewrite EP_cons by exact Hs. rewrite <- app_assoc. rewrite <- H3.
+        destruct st as [|s st']; [now apply E_seq_cons_nostart|].
+        destruct sl as [|x sl']; [cbn in Hl; lia|].
+        rewrite E_seq_cons_cons by exact Hs. cbn [negb andb] in Hnm. now rewrite Hnm. }
+    destruct starts as [|s st]; [now apply Hnomatch|].
+    destruct (negb (skippable t) && ((s =? open_id t) || (s =? close_id t))) eqn:Hm; [|now apply Hnomatch].
+    apply andb_true_iff in Hm. destruct Hm as [Hs Hm]. apply negb_true_iff in Hs.
+    destruct slots as [|x slots']; [cbn in Hlen; lia|]. cbn [length] in Hlen.
+    destruct (IH slots' st [t] ltac:(lia)) as [g0 [gs [H1 [H2 H3]]]].
+    rewrite cut_decls_acc. rewrite H1. exists [], (([t] ++ g0) :: gs). cbn [app]. rewrite app_nil_r.
+    split; [reflexivity|]. split; [cbn [length]; lia|].
+    rewrite E_seq_cons_cons by exact Hs. rewrite Hm. rewrite H3.
+    cbn [length firstn skipn combine map concat]. unfold grp. cbn [fst snd].
+    rewrite (EP_cons ix t g0 Hs). change (EP ix []) with (@nil (N * list N)). cbn [app].
+    repeat rewrite <- app_assoc. reflexivity.
+Qed.
+
+Lemma print_decl_E cf ix slot decl :
+  fix_decl_tail cf = true -> covered ix decl ->
+  print_decl cf ix slot decl = flat_map snd (grp ix (slot, decl)).
+Proof.
+  intros Hf Hc. unfold print_decl, grp. cbn [fst snd].
+  pose proof (emit_E_seq ix decl [] [] slot [] Hc) as H.
+  destruct (emit_seq (emit_tok ix) decl [] [] (slot, [])) as [pend out].
+  unfold finish_decl. rewrite Hf. cbn [app] in H.
+  rewrite <- flat_map_snd_pieces. rewrite <- flat_map_app. now rewrite H.
+Qed.
+
+Lemma covered_in ix l t : covered ix l -> In t l -> covered_tok ix t.
+Proof. induction l as [|x r IH]; intros Hc Hi; [contradiction|]. cbn in Hc. destruct Hc as [H1 H2]. destruct Hi as [<-|Hi]; auto. Qed.
+
+Lemma covered_of ix l : (forall t, In t l -> covered_tok ix t) -> covered ix l.
+Proof. induction l as [|x r IH]; intros H; [exact I|]. split; [apply H; now left|apply IH; intros t Ht; apply H; now right]. Qed.
+
+(* every group is a sub-list of the tokens *)
+Lemma cut_decls_in l : forall starts cur g,
+  In g (cut_decls l starts cur []) -> forall t, In t g -> In t cur \/ In t l.
+Proof.
+  induction l as [|x r IH]; intros starts cur g Hg t Ht; cbn [cut_decls] in Hg.
+  - destruct Hg as [<-|[]]. now left.
+  - destruct starts as [|s st].
+    + destruct (IH [] (cur ++ [x]) g Hg t Ht) as [H|H]; [apply in_app_or in H; destruct H as [H|[<-|[]]]; [now left|right; now left]|right; now right].
+    + destruct (negb (skippable x) && ((s =? open_id x) || (s =? close_id x))).
+      * rewrite cut_decls_acc in Hg. cbn [app] in Hg. destruct Hg as [<-|Hg]; [now left|].
+        destruct (IH st [x] g Hg t Ht) as [[<-|[]]|H]; right; [now left|now right].
+      * destruct (IH (s :: st) (cur ++ [x]) g Hg t Ht) as [H|H]; [apply in_app_or in H; destruct H as [H|[<-|[]]]; [now left|right; now left]|right; now right].
+Qed.
+
+Lemma cut_head sk : forall t r st cur,
+  forallb skippable sk = true -> skippable t = false ->
+  exists gs, cut_decls (sk ++ t :: r) (open_id t :: st) cur [] = (cur ++ sk) :: gs.
+Proof.
+  induction sk as [|x sk IH]; intros t r st cur Hsk Ht.
+  - cbn [app cut_decls]. rewrite Ht, N.eqb_refl. cbn [negb andb orb]. rewrite cut_decls_acc. cbn [app].
+    rewrite app_nil_r. eexists. reflexivity.
+  - cbn [forallb] in Hsk. apply andb_true_iff in Hsk. destruct Hsk as [Hx Hsk].
+    cbn [app cut_decls]. rewrite Hx. cbn [negb andb].
+    destruct (IH t r st (cur ++ [x]) Hsk Ht) as [gs Hgs]. exists gs. rewrite Hgs. now rewrite <- app_assoc.
+Qed.
+
+Lemma per_decl_general cf toks :
+  fix_decl_tail cf = true -> wf_toks toks -> guard cf toks ->
+  exists ds tail, print_decls cf toks = Some (ds, tail) /\ concat ds ++ tail = source_text toks.
+Proof.
+  intros Hf [Hnd H0] Hg. unfold print_decls.
+  destruct (build cf toks) as [ix|] eqn:Hb; [|now destruct (build_total_lemma cf toks)].
+  pose proof Hb as Hb'. unfold build in Hb'.
+  destruct (proj1 (spec_mutual (S (toks_size toks))) cf 0 false [] toks false [] [] [] false empty_index ix []
+                  Hb' Hnd H0 H0 ltac:(discriminate) Hg ltac:(intros _ Hz; now contradiction Hz))
+    as [SLn [STn [Hsl [Hst [Hlen [Hhead [_ [_ [_ [_ Heq]]]]]]]]]].
+  destruct (Heq ix (agree_refl _ _) ltac:(intros; reflexivity)) as [Hcov Heqn].
+  cbn [app is_nil andb pieces map] in Hsl, Hst, Heqn. change (negb (0 =? 0)) with false in Heqn. cbn [app] in Heqn.
+  rewrite Hsl, Hst. clear Hsl Hst.
+  assert (Hlt : (length STn < length SLn)%nat) by (rewrite Hlen; apply Nat.lt_succ_diag_r).
+  destruct (cut_E ix toks SLn STn [] Hlt) as [g0 [gs [Hcut [Hgl HE]]]].
+  cbn [app] in Hcut. rewrite Hcut. cbn [tl].
+  eexists. eexists. split; [reflexivity|].
+  (* the tokens before the first declaration are skippable *)
+  assert (Hg0 : EP ix g0 = []).
+  { unfold head_start in Hhead. destruct (gather toks) as [sk rest1] eqn:Hga.
+    destruct (gather_spec _ _ _ Hga) as [Htoks [Hsk Hh]]. cbn [snd] in Hhead.
+    destruct rest1 as [|t r].
+    - subst STn. rewrite app_nil_r in Htoks. subst toks.
+      assert (gs = []) by (destruct gs; [reflexivity|exfalso; cbn in Hgl; lia]). subst gs.
+      assert (Hall : forall l cur, cut_decls l [] cur [] = [cur ++ l]).
+      { induction l as [|x l IHl]; intros cur; cbn [cut_decls]; [now rewrite app_nil_r|]. rewrite IHl. now rewrite <- app_assoc. }
+      rewrite Hall in Hcut. cbn [app] in Hcut. inversion Hcut; subst g0. now apply EP_skippable.
+    - destruct Hhead as [STn' ->]. subst toks.
+      destruct (cut_head sk t r STn' [] Hsk Hh) as [gs' Hgs']. rewrite Hgs' in Hcut. cbn [app] in Hcut.
+      inversion Hcut; subst. now apply EP_skippable. }
+  rewrite Hg0 in HE. cbn [app] in HE.
+  unfold source_text. rewrite <- Heqn. rewrite HE. rewrite flat_map_app. rewrite flat_map_snd_pieces. f_equal.
+  (* the groups *)
+  assert (Hcovg : forall g, In g gs -> covered ix g).
+  { intros g Hin. apply covered_of. intros t Ht.
+    destruct (cut_decls_in toks STn [] g ltac:(rewrite Hcut; now right) t Ht) as [[]|Hin2].
+    now apply (covered_in ix toks t Hcov). }
+  clear - Hf Hcovg. generalize (firstn (length gs) SLn). intros sl. revert sl.
+  induction gs as [|g gs IH]; intros sl; destruct sl as [|s sl]; cbn [combine map concat flat_map fst snd]; try reflexivity.
+  rewrite flat_map_app. rewrite (print_decl_E cf ix s g Hf (Hcovg g (or_introl eq_refl))). cbn [fst snd]. f_equal.
+  apply IH. intros g' Hg'. apply Hcovg. now right.
+Qed.
+
+Lemma per_decl_concat_lemma toks :
+  wf_toks toks ->
+  exists ds tail, print_decls cfg_fixed toks = Some (ds, tail) /\ concat ds ++ tail = source_text toks.
+Proof. intros Hwf. apply per_decl_general; [reflexivity|exact Hwf|now apply guard_fixed]. Qed.
 
 (* ======================================================================================
    C31: format mode permutes the top-level declarations by a stable sort on (rank, name) *)
